@@ -22,12 +22,12 @@ static void conv_case(uint64_t nn, unsigned rep) {
   gbuf_t gx, gb, gc, gc2, gz, gb2, gb3, gc3;
   int64_t* x = gb_alloc(&gx, nn * 8, 8, 8 * (rep % 8), 4096);
   uint64_t* b = gb_alloc(&gb, nn * 32, 8, 8 * ((rep + 1) % 8), 4096);
-  uint32_t* c = gb_alloc(&gc, nn * 32, 8, 4 * ((rep + 2) % 8), 4096);
-  uint32_t* c2 = gb_alloc(&gc2, nn * 32, 8, 4 * ((rep + 3) % 8), 4096);
+  uint32_t* c = gb_alloc(&gc, nn * 32, 8, 8 * ((rep + 2) % 8), 4096);
+  uint32_t* c2 = gb_alloc(&gc2, nn * 32, 8, 8 * ((rep + 3) % 8), 4096);
   __int128* z = gb_alloc(&gz, nn * 16, 16, 16 * ((rep + 1) % 4), 4096);
   uint64_t* b2 = gb_alloc(&gb2, nn * 32, 8, 8 * ((rep + 4) % 8), 4096);
   uint64_t* b3 = gb_alloc(&gb3, nn * 32, 8, 8 * ((rep + 5) % 8), 4096);
-  uint32_t* c3 = gb_alloc(&gc3, nn * 32, 8, 4 * ((rep + 6) % 8), 4096);
+  uint32_t* c3 = gb_alloc(&gc3, nn * 32, 8, 8 * ((rep + 6) % 8), 4096);
   for (uint64_t i = 0; i < nn; i++) x[i] = special_i64(r, i + (rep ? 14 : 0));
   gb_prefill(&gb, (int)rep, 1);
   gb_prefill(&gc, (int)rep + 1, 2);
